@@ -44,7 +44,12 @@ RULE = (
     "every construct tag it uses is backed by a use in ppci's docs/samples/tests (table SUPPORTED), else in the "
     "unsupported-but-valid stream (internal errors listed in evidence only).  non-trivial = uses an initialiser with "
     "a non-literal constant expression, an out-of-range constant, a nested aggregate, or control flow nested >= 2 deep "
-    "(C), a struct/array/switch/loop (C3), >= 2 blocks (IR); distinct = hash of the source text"
+    "(C), a struct/array/switch/loop (C3), >= 2 blocks (IR); distinct = hash of the source text. "
+    "Thorough tier additionally: coverage-guided byte-level fuzzing of the C front end (atheris/libFuzzer, vf/fuzz.py; two campaigns of "
+    "VERIF_FUZZ_RUNS (default 15000) executions from an empty corpus and from 30 small units of the supported profile): c_to_ir alone; on an "
+    "internal exception gcc decides validity, the known findings are matched by classify(), and the supported subset is decided from "
+    "construct tags recovered by an independent parse (vf/cfeat.py: clang -ast-dump=json + lexical whitelists; anything it cannot place "
+    "goes to the unsupported stream); internal errors on invalid or unsupported inputs are only counted (coverage[\"fuzz\"])"
 )
 ASSUMPTIONS = [
     "gcc 12 -std=c99 -fsyntax-only -pedantic-errors decides validity of the C inputs",
@@ -54,7 +59,8 @@ ASSUMPTIONS = [
     "the value of a constant is not a construct: an initialiser constant outside the range of the declared type belongs "
     "to the supported subset because scalar initialisers with integer constants are used throughout ppci's samples",
 ]
-TRUSTED = ["CPython", "Hypothesis", "gcc 12 (validity of C inputs)", "vf/gencdecl.py, vf/genc3mini.py, vf/genir.py (generators)"]
+TRUSTED = ["CPython", "Hypothesis", "gcc 12 (validity of C inputs)", "vf/gencdecl.py, vf/genc3mini.py, vf/genir.py (generators)",
+           "thorough tier: atheris 3.1 / libFuzzer (input producer only), clang 14 AST + vf/cfeat.py (construct tags of fuzzed C units)"]
 TECHNIQUE = "grammar/type-directed generation of valid C, C3 and IR text; crash oracle on the exception type, bucketed by innermost ppci frame"
 LEVEL_TEXT = (
     "Exploration with a crash oracle: generated valid inputs in three languages are compiled at every optimisation "
@@ -308,7 +314,7 @@ def message(case, r):
 
 def replay(case):
     if fuzz.is_case(case):
-        return fuzz.replay_case(case, fuzz_cfront)
+        return fuzz.replay_case(case, lambda d: fuzz_cfront(d, known_as_label=False))
     if case["lang"] == "c":
         if not GCC:
             raise HarnessError("gcc not found")
@@ -473,13 +479,13 @@ def run(ctx):
 # coverage-guided fuzzing of the C front end (thorough tier only; driver: vf/fuzz.py)
 
 FUZZ_TARGET = "C28.cfront"
-FUZZ_RUNS = 30000  # (one c_to_ir call under coverage instrumentation costs 10-100 ms)
-# byte-level mutations only; one or two per execution (libFuzzer's default of up to 5 stacked mutations leaves < 2 % of the
+FUZZ_RUNS = 15000  # (one c_to_ir call of a 0.5 KB unit under coverage instrumentation costs 20-100 ms)
+# byte-level mutations only; one per execution (libFuzzer's default of up to 5 stacked mutations leaves < 2 % of the
 # mutants of a C unit compilable, so that the search never gets past the parser)
-FUZZ_ARGS = ["-mutate_depth=2"]
+FUZZ_ARGS = ["-mutate_depth=1"]
 FUZZ_DICT = [w.encode() for w in sorted(cfeat.KEYWORDS_OK)] + [b"<<=", b">>=", b"++", b"--", b"<<", b">>", b"<=", b">=", b"==", b"!=", b"&&", b"||",
              b"+=", b"-=", b"*=", b"/=", b"%=", b"&=", b"|=", b"^=", b" = { ", b" };\n", b"0x", b"u", b"l", b"ul", b"lu", b"ll", b"ull", b"llu", b"U", b"L", b"UL", b"LU", b"LL", b"ULL", b"LLU", b"'a'", b"'\\n'", b"'\\0'", b"\"ab\"", b"1.5", b"1e3",
-             b"[2]", b"[0] = ", b".m1 = ", b": 3;", b"case 1: ;", b"default: ;", b"int g1", b"int f1(void) {", b"return 0;"]  # fmt: skip
+             b"[2]", b"[0] = ", b".m1 = ", b": 3;", b"case 1: ;", b"default: ;", b"int g1", b"int f1(void) {", b"return 0;", b"\t", b"\n", b"  ", b" \t "]  # fmt: skip
 
 
 def _gcc_valid_bounded(src):
@@ -496,7 +502,7 @@ def fuzz_features(src):
     return cfeat.tags(src)
 
 
-def fuzz_cfront(data):
+def fuzz_cfront(data, known_as_label=True):
     """One fuzz input = bytes of a would-be C translation unit.  Returns an outcome label; raises fuzz.Failure on a C28
     violation.  Cheap path first: c_to_ir alone; success and diagnostics are fine.  Only on an internal exception gcc
     decides whether the input is valid C99; for a valid one the known findings (classify) and the supported subset
@@ -522,7 +528,7 @@ def fuzz_cfront(data):
     if not GCC or not _gcc_valid_bounded(text):
         return "invalid C, internal error:" + bucket
     case = {"lang": "c", "src": text, "features": []}
-    kid = classify(case, message(case, r))
+    kid = classify(case, message(case, r)) if known_as_label else None  # (replay reports; the runner classifies)
     if kid and kid in open_finding_ids(PID):
         return "known:" + kid
     tags = fuzz_features(text)
